@@ -65,6 +65,53 @@ def wrap_copy(rng, doc, ir):
     return d, kinds
 
 
+def ref_of(op, payload):
+    """The payload completed with the defaults of this operation's own variable definitions."""
+    out = dict(payload)
+    for name, _t, default in op.variables:
+        if name not in out and isinstance(default, bool):
+            out[name] = default
+    return out
+
+
+def probe_defaults_per_operation(ctx, rng, case):
+    """Two operations declare the same variable with different defaults and the payload leaves it out: each
+    operation is measured with its own default, in whichever order the operations are written."""
+    from py_gql.lang import parse
+    from py_gql.utilities import MaxDepthValidationRule
+
+    shallow = "query Shallow($s: Boolean = true) { __typename m: __schema @skip(if: $s) { types { name } } }"
+    deep = "query Deep($s: Boolean = false) { __typename m: __schema @skip(if: $s) { types { name } } }"
+    third = "query Third($s: Boolean = true, $t: Boolean = false) { m: __schema @include(if: $t) { types { fields { name } } } x: __schema @skip(if: $s) { types { name } } }"
+    ops = [("Shallow", shallow, 0), ("Deep", deep, 2), ("Third", third, 0)]
+    rng.shuffle(ops)
+    text = "\n".join(t for _n, t, _d in ops)
+    document = parse(text)
+    for limit in (0, 1, 2):
+        for name, _t, depth in ops:
+            ctx.evaluated()
+            ctx.count("per_operation_default_probes")
+            w = {"schema_sdl": case.sdl, "document": text, "variables": {}, "operation": name, "limit": limit, "expected_depth": depth}
+            try:
+                flagged = bool(MaxDepthValidationRule(limit, operation_name=name)(case.schema, document, {}))
+            except Exception as e:
+                ctx.violation("raises:%s" % type(e).__name__, w, repr(e)[:200])
+                return
+            if flagged != (depth > limit):
+                ctx.violation("defaults:operation-measured-with-the-default-of-another-operation", w,
+                              "flagged=%r depth %d limit %d" % (flagged, depth, limit))
+                return
+        try:
+            n = len(MaxDepthValidationRule(limit)(case.schema, document, None))
+        except Exception as e:
+            ctx.violation("raises:%s" % type(e).__name__, {"schema_sdl": case.sdl, "document": text, "limit": limit}, repr(e)[:200])
+            return
+        if n != sum(1 for _n, _t, depth in ops if depth > limit):
+            ctx.violation("defaults:operation-measured-with-the-default-of-another-operation",
+                          {"schema_sdl": case.sdl, "document": text, "variables": None, "limit": limit}, "errors=%d" % n)
+            return
+
+
 def run(ctx):
     from py_gql.lang import parse
     from py_gql.utilities import MaxDepthValidationRule
@@ -74,6 +121,7 @@ def run(ctx):
     for ci in range(ctx.n(150)):
         case = exec_mon.Case(rng, "c19:%d:%d:%d" % (ctx.seed, ctx.shard, ci))
         case.sdl = S.to_sdl(case.ir)[0]
+        probe_defaults_per_operation(ctx, rng, case)
         for ri in range(6):
             g = opgen.OpGen(rng, case.ir, max_depth=rng.choice([1, 2, 3, 4]), p_directive=0.3)
             doc = g.document(n_ops=rng.choice([1, 2, 3]))
@@ -108,6 +156,14 @@ def run(ctx):
                 if kinds:
                     families.append(("wrapped", d2, kinds))
             base_depths = {}
+            # operations that declare the same boolean variable get different defaults for it half of the time
+            seen_defaults = {}
+            for o in doc.operations:
+                for i, (name, t, default) in enumerate(o.variables):
+                    if isinstance(default, bool):
+                        if name in seen_defaults and rng.random() < 0.5:
+                            o.variables[i] = (name, t, not seen_defaults[name])
+                        seen_defaults.setdefault(name, default)
             for fam, d, kinds in families:
                 text = rulebreak.render(d)
                 try:
@@ -125,20 +181,27 @@ def run(ctx):
                             variables[name] = None if t[0] != "nonnull" else None
                 ref_vars = dict(variables)
                 # a variable that has a default may be left out of the payload: the default steers the directive
-                defined_in = {}
+                # (every operation that declares the name must give it a default; each operation then measures
+                # with its *own* default)
+                defaults_of = {}
                 for o in d.operations:
-                    for name, _t, _d in o.variables:
-                        defined_in[name] = defined_in.get(name, 0) + 1
-                for o in d.operations:
-                    for name, t, default in o.variables:
-                        if isinstance(default, bool) and name in variables and defined_in[name] == 1 and rng.random() < 0.3:
-                            del variables[name]
-                            ref_vars[name] = default
-                            ctx.count("boolean_variables_left_to_their_default")
+                    for name, _t, default in o.variables:
+                        defaults_of.setdefault(name, []).append(default)
+                for name, ds in sorted(defaults_of.items()):
+                    if name in variables and all(isinstance(x, bool) for x in ds) and rng.random() < 0.3:
+                        del variables[name]
+                        ref_vars.pop(name, None)
+                        ctx.count("boolean_variables_left_to_their_default")
+                        if len(set(ds)) > 1:
+                            ctx.count("variables_with_different_defaults_per_operation")
+                payload_vars = dict(ref_vars)
+
+                class _PerOperation(dict):
+                    pass
                 witness = {"schema_sdl": case.sdl, "document": text, "variables": variables, "family": fam, "wraps": kinds}
                 for o in d.operations:
                     try:
-                        want = refdepth.depth(o.selection, d, ref_vars)
+                        want = refdepth.depth(o.selection, d, ref_of(o, payload_vars))
                     except KeyError:
                         ctx.abstain("directive variable not boolean")
                         continue
@@ -195,7 +258,7 @@ def run(ctx):
                 try:
                     if MaxDepthValidationRule(0, operation_name="NoSuchOperation")(case.schema, document, variables):
                         ctx.violation("filter:unknown-name-reports", witness, "")
-                    depths = [refdepth.depth(o.selection, d, ref_vars) for o in d.operations]
+                    depths = [refdepth.depth(o.selection, d, ref_of(o, payload_vars)) for o in d.operations]
                     limit = rng.randint(0, max(depths) + 1)
                     errs = MaxDepthValidationRule(limit)(case.schema, document, variables)
                     want_n = sum(1 for x in depths if x > limit)
